@@ -84,6 +84,8 @@ type blockCtx struct {
 	Migratable []uint64 // of those: declared before 0.14.1 and not migrated yet
 	NextAddr   uint64
 	NextClass  uint64
+	// ForceSierra: declare a Sierra class in this block (block 0 of chains that cross 0.14.0; see probes.go crossingProbe)
+	ForceSierra bool
 }
 
 type Built struct {
@@ -126,13 +128,23 @@ func genBounds(r *hx.RNG, withL1Data bool) map[core.Resource]core.ResourceBounds
 
 func genTx(r *hx.RNG, ver string) (core.Transaction, string) {
 	q := r.Chance(8)
-	l1data := ver != "0.13.2" && ver != "0.13.3" || r.Chance(30)
+	l1data := ver >= "0.13.4" || r.Chance(30)
 	da := func() core.DataAvailabilityMode { return core.DataAvailabilityMode(r.Intn(2)) }
 	sig := rfs(r, 3)
 	if r.Chance(10) {
 		sig = []felt.Felt{{}} // the signature [0]
 	}
-	switch k := r.Intn(20); {
+	k := r.Intn(20)
+	if ver < "0.13.2" && r.Chance(20) {
+		k = 20 + r.Intn(2) // the kinds whose hash juno does not recompute, in old-format blocks
+	}
+	switch {
+	case k == 20:
+		return &core.DeployTransaction{TransactionHash: rf(r), Version: txVersion(uint64(r.Intn(2)), false), ContractAddress: rf(r),
+			ContractAddressSalt: rf(r), ClassHash: rf(r), ConstructorCallData: rfs(r, 3)}, "deploy"
+	case k == 21:
+		return &core.DeclareTransaction{TransactionHash: rf(r), Version: txVersion(0, false), SenderAddress: rf(r), MaxFee: rf(r),
+			Nonce: rf(r), ClassHash: rf(r), TransactionSignature: sig}, "declare_v0"
 	case k < 6:
 		t := &core.InvokeTransaction{Version: txVersion(3, q), SenderAddress: rf(r), Nonce: rf(r), CallData: rfs(r, 3),
 			ResourceBounds: genBounds(r, l1data), Tip: ru64(r), PaymasterData: rfs(r, 2), AccountDeploymentData: rfs(r, 2),
@@ -265,7 +277,7 @@ func genDiff(r *hx.RNG, ctx blockCtx) (*core.StateDiff, map[felt.Felt]core.Class
 			d.StorageDiffs[*fz(a)] = m // possibly an empty map: hashed as (address, 0)
 		}
 	}
-	if r.Chance(35) {
+	if r.Chance(35) || ctx.ForceSierra {
 		for i, n := 0, 1+r.Intn(2); i < n; i++ {
 			id := next.NextClass
 			next.NextClass++
@@ -330,7 +342,7 @@ func genBlock(seed uint64, ctx blockCtx) (*Built, blockCtx) {
 		Update: &core.StateUpdate{StateDiff: diff}, Classes: classes, Kinds: kinds}, next
 }
 
-var versions = []string{"0.13.2", "0.13.3", "0.13.4", "0.13.5", "0.13.6", "0.14.0", "0.14.1"}
+var versions = []string{"0.11.0", "0.11.1", "0.12.3", "0.13.0", "0.13.1", "0.13.2", "0.13.3", "0.13.4", "0.13.5", "0.13.6", "0.14.0", "0.14.1"}
 
 // chainPlan: seeds and contexts of an n-block chain with non-decreasing protocol versions.
 type chainPlan struct {
@@ -342,18 +354,24 @@ func planChain(seed uint64) chainPlan {
 	r := hx.NewRNG(seed)
 	n := 3 + r.Intn(4)
 	vi := r.Intn(len(versions))
+	vers := make([]string, n)
+	for i := 0; i < n; i++ {
+		if i > 0 && r.Chance(35) && vi < len(versions)-1 {
+			vi++
+		}
+		vers[i] = versions[vi]
+	}
 	ctx := blockCtx{Number: 0, Timestamp: 1_700_000_000 + uint64(r.Intn(1000)), NextAddr: 100, NextClass: 500}
+	ctx.ForceSierra = vers[0] < "0.14.0" && vers[n-1] >= "0.14.0"
 	var p chainPlan
 	for i := 0; i < n; i++ {
-		if r.Chance(40) && vi < len(versions)-1 {
-			vi += 1 + r.Intn(len(versions)-1-vi)
-		}
-		ctx.Version = versions[vi]
+		ctx.Version = vers[i]
 		s := r.U64()
 		_, next := genBlock(s, ctx)
 		p.Seeds = append(p.Seeds, s)
 		p.Ctxs = append(p.Ctxs, ctx)
 		ctx = next
+		ctx.ForceSierra = false
 	}
 	return p
 }
